@@ -95,4 +95,36 @@ def sentInto (s : NState) (m : Nat) : Nat :=
   | none => 0
 
 
+/-! ### the lazy fetch gate at net level -/
+
+/-- does instruction `i` concern the output side of mailbox `m`? -/
+def outRel (m : Nat) (i : Instr) : Bool := i == .gate m || i == .send m || i == .close m
+
+/-- the first instruction of a program that concerns the output side of mailbox `m` -/
+def nextOut (m : Nat) : List Instr → Option Instr
+  | [] => none
+  | i :: r => if outRel m i then some i else nextOut m r
+
+/-- the sender has passed the gate of `m` and not sent yet: the next thing it does to `m` is a `send` / `close` -/
+def armed (m : Nat) (p : List Instr) : Bool :=
+  match nextOut m p with
+  | some (.send _) => true
+  | some (.close _) => true
+  | _ => false
+
+/-- thread `t` is THE sender of mailbox `m` and goes through the gate of `m` before every message it puts into it
+(static, decidable): the body does not start armed; after a `gate m` the next `m`-instruction is a send / close, after
+a send / close it is not; nobody else sends into `m` -/
+def senderOk (net : Net) (t m : Nat) : Bool :=
+  match net.threads[t]? with
+  | none => false
+  | some th =>
+    !armed m th.body &&
+    (tails th.body).all (fun p => match p with
+      | i :: r => (!(i == .gate m) || armed m r) && (!(i == .send m || i == .close m) || !armed m r)
+      | [] => true) &&
+    (List.range net.threads.length).all fun u => u == t || match net.threads[u]? with
+      | some tu => decide (cntOut m tu.body = 0) && decide (cntOut m tu.epi = 0)
+      | none => true
+
 end Strax.NetBP
